@@ -8,7 +8,7 @@ PROP_V = "Props/Properties_C16.v"
 GEN_MODULES = ["Emit", "Sites"]
 FLOW_FILES = ['debug.c']
 REPLAY_HINT = ("(a) VRT_SEED=<seed> VRT_DEBUGGER=1 VRT_RACE=0 _work/h/mu_mix   (b) _work/c16/drv prints "
-               "'<fn> <state> <n> <ret==buf> <hex text> <hex of buf[-8..n+8)>' per case")
+               "'<fn> <state> <n> <ret==buf> <hex text> <hex of buf[-8..n+8)> <text unchanged during the call>' per case")
 PARTIAL = ["C16(a) is decided by the write-monitor oracle over sampled schedules and by the MuModel tie; a Coq theorem that the "
            "debug functions preserve the mutex invariant is not stated (the mutex variant was refuted by finding F2 before its repair)"]
 
@@ -22,8 +22,12 @@ def build_driver():
     return (d + "/drv", None) if rc == 0 else (None, e[-800:])
 
 
-def oracle(fn, state, n, ret_ok, text, area):
-    """Exactly the property: writes only inside buf[0..n-1]; NUL-terminated if n>=1; ends with '...' if truncated and n>=4."""
+def oracle(fn, state, n, ret_ok, text, area, stable=True):
+    """Exactly the property, nothing more: writes only inside buf[0..n-1]; NUL-terminated if n>=1; a truncated result ends with
+    '...' when n>=4 (truncated = a proper prefix of the full text followed by that marker).  `text` is the full text of the same
+    state (big buffer, taken before and after the call; `stable` says the two agreed -- if not, only the text-independent parts
+    are judged).  NOT demanded, because the property does not state it: how many characters of the text survive a truncation,
+    that a text which would fit is returned whole rather than truncated, and what a truncated result looks like for n < 4."""
     m = max(n, 0)
     pre, buf, post = area[:8], area[8:8 + m], area[8 + m:]
     if pre != b"\xee" * 8 or post != b"\xee" * len(post):
@@ -32,14 +36,13 @@ def oracle(fn, state, n, ret_ok, text, area):
         if b"\0" not in buf:
             return "result is not NUL-terminated"
         s = buf[:buf.index(b"\0")]
-        if len(text) + 1 <= n:
-            if s != text:
-                return "text that fits was altered"
-        else:
-            if n >= 4 and not s.endswith(b"..."):
-                return "truncated result does not end with '...'"
-            if n >= 4 and s[:-3] != text[:n - 4]:
-                return "truncated result is not a prefix of the full text"
+        if not stable or s == text or n < 4:
+            return None
+        # n >= 4 and the result is not the full text: it was truncated
+        if not s.endswith(b"..."):
+            return "truncated result does not end with '...'"
+        if not text.startswith(s[:-3]):
+            return "truncated result is not a prefix of the full text followed by '...'"
     return None
 
 
@@ -82,7 +85,7 @@ def run(tier, seed):
     # (b) buffer discipline on the real library
     drv, err = build_driver()
     cases = []
-    nb = 0
+    nb = unstable = 0
     if drv is None:
         res["broken"].append({"what": "real library + debug driver does not compile", "detail": err})
     else:
@@ -90,15 +93,21 @@ def run(tier, seed):
         if rc != 0:
             res["violations"].append({"why": "debug driver crashed (exit %d): %s" % (rc, err[-400:]), "key": "debug-crash"})
         for line in out.splitlines():
-            fn, state, n, ret_ok, text, area = line.split(" ")
-            fn, state, n = int(fn), int(state), int(n)
+            f = line.split(" ")
+            if len(f) != 7:
+                res["broken"].append({"what": "debug driver printed an unparseable line", "detail": line[:200]})
+                break
+            fn, state, n, ret_ok, text, area, stable = f
+            fn, state, n, stable = int(fn), int(state), int(n), stable == "1"
             text, area = bytes.fromhex(text), bytes.fromhex(area)
             nb += 1
-            v = oracle(fn, state, n, ret_ok, text, area)
+            unstable += 0 if stable else 1
+            v = oracle(fn, state, n, ret_ok, text, area, stable)
             if v:
                 res["violations"].append({"case": {"fn": fn, "state": state, "n": n, "text": text.decode("latin1")},
                                           "buf": area.hex(), "why": v, "key": "buffer:%d" % fn})
-            cases.append((n, list(text), list(area)))
+            if stable:
+                cases.append((n, list(text), list(area)))
         res["violations"] = res["violations"][:5]
     diffs = 0
     if cases and st.get("Emit", {}).get("ok") and os.path.exists(os.path.join(COQ, "Proof/EmitSpec.vo")):
@@ -147,6 +156,6 @@ def run(tier, seed):
                        "rule": "(b) every n in 0..80 plus {127,128,200,511,1024,4000,-1,-100} x 4 functions x mutex/cv states with 0..3 queued "
                                "waiters on the real library, canaries on both sides; non-trivial = truncated outputs (n>0). "
                                "(a) schedules of lockers + a debug-state caller under the vrt scheduler; counted = debug calls executed",
-                       "buffer_cases": nb, "schedules": na, "traces_validated_against_impl": diffs, "sched_stats": agg,
+                       "buffer_cases": nb, "buffer_cases_state_changed_during_call": unstable, "schedules": na, "traces_validated_against_impl": diffs, "sched_stats": agg,
                        "samples": [{"n": c[0], "text": bytes(c[1]).decode("latin1"), "buf": bytes(c[2]).hex()} for c in cases[31:33]]}
     return res
